@@ -144,6 +144,124 @@ theorem generated_digit_perm : ∀ s < 12, ∀ d < 8, ∀ d' < 8, Generated.tabl
 
 theorem generated_next_lt : ∀ s < 12, ∀ d < 8, Generated.table.next s d < 12 := by decide +kernel
 
+/-! ### the key is injective at every depth (distinct cells have distinct keys, hence one owner) -/
+
+/-- a transducer whose digit map is injective in every reachable state maps distinct digit strings to distinct strings -/
+theorem run_injective (t : HTable) (hperm : ∀ s < 12, ∀ d < 8, ∀ d' < 8, t.digit s d = t.digit s d' → d = d')
+    (hnext : ∀ s < 12, ∀ d < 8, t.next s d < 12) :
+    ∀ (xs ys : List Nat) (s : Nat), s < 12 → xs.length = ys.length → (∀ d ∈ xs, d < 8) → (∀ d ∈ ys, d < 8) →
+      run t s xs = run t s ys → xs = ys := by
+  intro xs
+  induction xs with
+  | nil => intro ys s _ hl _ _ _; cases ys with
+    | nil => rfl
+    | cons y ys => simp at hl
+  | cons x xs ih =>
+    intro ys s hs hl hx hy hrun
+    cases ys with
+    | nil => simp at hl
+    | cons y ys =>
+      simp only [run, List.cons.injEq] at hrun
+      have hx8 : x < 8 := hx x (by simp)
+      have hy8 : y < 8 := hy y (by simp)
+      have hxy : x = y := hperm s hs x hx8 y hy8 hrun.1
+      subst hxy
+      have := ih ys (t.next s x) (hnext s hs x hx8) (by simpa using hl)
+        (fun d hd => hx d (by simp [hd])) (fun d hd => hy d (by simp [hd])) hrun.2
+      rw [this]
+
+/-- base-8 strings of one length are determined by their value -/
+theorem ofDigits_injective : ∀ (xs ys : List Nat), xs.length = ys.length → (∀ d ∈ xs, d < 8) → (∀ d ∈ ys, d < 8) →
+    ofDigits xs = ofDigits ys → xs = ys := by
+  intro xs
+  induction xs with
+  | nil => intro ys hl _ _ _; cases ys with
+    | nil => rfl
+    | cons y ys => simp at hl
+  | cons x xs ih =>
+    intro ys hl hx hy h
+    cases ys with
+    | nil => simp at hl
+    | cons y ys =>
+      have e1 : ofDigits (x :: xs) = x * 8 ^ xs.length + ofDigits xs := by
+        have := ofDigits_append [x] xs; simpa [ofDigits] using this
+      have e2 : ofDigits (y :: ys) = y * 8 ^ ys.length + ofDigits ys := by
+        have := ofDigits_append [y] ys; simpa [ofDigits] using this
+      have hlen : xs.length = ys.length := by simpa using hl
+      have l1 := ofDigits_lt xs (fun d hd => hx d (by simp [hd]))
+      have l2 := ofDigits_lt ys (fun d hd => hy d (by simp [hd]))
+      rw [e1, e2, hlen] at h
+      rw [hlen] at l1
+      have hpos : 0 < 8 ^ ys.length := Nat.pow_pos (by decide)
+      have hxy : x = y := by
+        have h1 : (x * 8 ^ ys.length + ofDigits xs) / 8 ^ ys.length = (y * 8 ^ ys.length + ofDigits ys) / 8 ^ ys.length := by
+          rw [h]
+        rw [Nat.add_comm, Nat.add_mul_div_right _ _ hpos, Nat.div_eq_of_lt l1, Nat.add_comm (y * _),
+          Nat.add_mul_div_right _ _ hpos, Nat.div_eq_of_lt l2] at h1
+        simpa using h1
+      subst hxy
+      have hrest : ofDigits xs = ofDigits ys := by omega
+      rw [ih ys hlen (fun d hd => hx d (by simp [hd])) (fun d hd => hy d (by simp [hd])) hrest]
+
+theorem sdigit_lt (x y z i : Nat) : sdigit x y z i < 8 := by
+  unfold sdigit
+  have := Nat.mod_lt (x / 2 ^ i) (by decide : 0 < 2)
+  have := Nat.mod_lt (y / 2 ^ i) (by decide : 0 < 2)
+  have := Nat.mod_lt (z / 2 ^ i) (by decide : 0 < 2)
+  omega
+
+/-- a number below 2^b is determined by its b lowest bits -/
+theorem eq_of_bits (b : Nat) : ∀ (x x' : Nat), x < 2 ^ b → x' < 2 ^ b → (∀ i < b, x / 2 ^ i % 2 = x' / 2 ^ i % 2) → x = x' := by
+  induction b with
+  | zero => intro x x' h h' _; simp at h h'; omega
+  | succ b ih =>
+    intro x x' h h' hb
+    have h0 := hb 0 (Nat.succ_pos _)
+    simp only [Nat.pow_zero, Nat.div_one] at h0
+    have hh : x / 2 = x' / 2 := by
+      apply ih
+      · rw [Nat.pow_succ] at h; omega
+      · rw [Nat.pow_succ] at h'; omega
+      · intro i hi
+        have := hb (i + 1) (by omega)
+        simpa [Nat.pow_succ, Nat.div_div_eq_div_mul, Nat.mul_comm] using this
+    omega
+
+/-- **C04 (one key per cell)**: for the table extracted from the current source, two cells of the `b`-bit grid with the
+    same Hilbert key are the same cell -/
+theorem key_injective_current (b x y z x' y' z' : Nat)
+    (hx : x < 2 ^ b) (hy : y < 2 ^ b) (hz : z < 2 ^ b) (hx' : x' < 2 ^ b) (hy' : y' < 2 ^ b) (hz' : z' < 2 ^ b)
+    (h : key Generated.table x y z b = key Generated.table x' y' z' b) : x = x' ∧ y = y' ∧ z = z' := by
+  unfold key at h
+  have hl : (run Generated.table 0 (sdigits x y z b)).length = (run Generated.table 0 (sdigits x' y' z' b)).length := by
+    simp [run_length, sdigits]
+  have h1 := ofDigits_injective _ _ hl (run_lt _ generated_digits_lt 0 _) (run_lt _ generated_digits_lt 0 _) h
+  have hd : ∀ x y z, ∀ d ∈ sdigits x y z b, d < 8 := by
+    intro x y z d hd
+    simp only [sdigits, List.mem_map] at hd
+    obtain ⟨i, _, rfl⟩ := hd
+    exact sdigit_lt x y z i
+  have h2 := run_injective Generated.table generated_digit_perm generated_next_lt _ _ 0 (by decide)
+    (by simp [sdigits]) (hd x y z) (hd x' y' z') h1
+  -- equal digit strings: equal bits of every coordinate
+  have hbits : ∀ i < b, sdigit x y z i = sdigit x' y' z' i := by
+    intro i hi
+    have := congrArg (fun l => l.reverse[i]?) h2
+    simpa [sdigits, hi] using this
+  have hsplit : ∀ i < b, x / 2 ^ i % 2 = x' / 2 ^ i % 2 ∧ y / 2 ^ i % 2 = y' / 2 ^ i % 2 ∧ z / 2 ^ i % 2 = z' / 2 ^ i % 2 := by
+    intro i hi
+    have := hbits i hi
+    unfold sdigit at this
+    have a1 := Nat.mod_lt (x / 2 ^ i) (by decide : 0 < 2)
+    have a2 := Nat.mod_lt (y / 2 ^ i) (by decide : 0 < 2)
+    have a3 := Nat.mod_lt (z / 2 ^ i) (by decide : 0 < 2)
+    have b1 := Nat.mod_lt (x' / 2 ^ i) (by decide : 0 < 2)
+    have b2 := Nat.mod_lt (y' / 2 ^ i) (by decide : 0 < 2)
+    have b3 := Nat.mod_lt (z' / 2 ^ i) (by decide : 0 < 2)
+    omega
+  exact ⟨eq_of_bits b x x' hx hx' (fun i hi => (hsplit i hi).1), eq_of_bits b y y' hy hy' (fun i hi => (hsplit i hi).2.1),
+    eq_of_bits b z z' hz hz' (fun i hi => (hsplit i hi).2.2)⟩
+
 /-- **C04 (prefix, for the current source)** -/
 theorem key_prefix_current (x y z B b : Nat) (hb : b ≤ B) :
     key Generated.table x y z B / 8 ^ (B - b) =
